@@ -136,8 +136,10 @@ def check_txn_against(ctxs, fam, txn, text, viol, where, props, masks=True):
             viol.append((props["type"], f"{where}: {fam}:TransactionType = {sorted(ts)} lacks {lab} of an approved transaction"))
 
 
-def check_program(text, impl, envs, masks=True):
-    """returns (violations, stats). impl: implementation's analyze JSON for `text`."""
+def check_program(text, impl, envs, masks=True, path_prefix=None):
+    """returns (violations, stats). impl: implementation's analyze JSON for `text`.
+    path_prefix (list of block ids): only the approved executions whose block sequence STARTS WITH that path are judged
+    (C12: the contexts of a function cut out by a dispatch path speak about exactly those executions)."""
     viol = []
     stats = {"envs": 0, "approved": 0, "unsupported": 0, "facts": 0}
     if "err" in impl or "ctx" not in impl:
@@ -179,6 +181,14 @@ def check_program(text, impl, envs, masks=True):
             b = line_block.get(ln)
             if b is not None and (not blocks or blocks[-1] != b):
                 blocks.append(b)
+        if path_prefix is not None and blocks[:len(path_prefix)] != list(path_prefix):
+            continue
+        # known finding D27: an execution that starts with the path and later RE-ENTERS a path block before the last one
+        # leaves it through a successor that the cut replaced by an error block; such executions are lost by the cut
+        # function (recorded, replayed by its own entry) and are not judged here
+        if path_prefix is not None and masks and any(b in list(path_prefix)[:-1] for b in blocks[len(path_prefix):]):
+            continue
+        stats["on_path"] = stats.get("on_path", 0) + 1
         group = env["group"]
         i = env["index"]
         me = group[i]
